@@ -2,7 +2,7 @@
 (PROV-FMTROUND), the padding limit gates padding, and formatter flags never reach the digits."""
 import re
 from facts import cdef, cres
-from rules import prov, provrules as R
+from rules import prov, provrules as R, units
 
 FLAG_GETTERS = re.compile(r"fmt::Formatter::(width|fill|align|sign_plus|sign_minus|sign_aware_zero_pad|flags|alternate|options)$")
 DIGIT_SINKS = re.compile(r'Formatter::pad_integral$|Formatter::write_str$|fmt::Write::write_str$|fmt::Write::write_char$|String::push$|String::push_str$|String::insert$|Vec::push$|Vec::insert$|Vec::resize$|fmt::Arguments::new$')
@@ -44,7 +44,7 @@ def run(ctx):
                        'takes the generated DEFAULT_ROUNDING_MODE and the sign of the formatted number. The padding limit FMT_MAX_INTEGER_PADDING '
                        'feeds a comparison on those paths. FLAGS (sufficient condition for "flags never alter the digits"): no value obtained from '
                        'Formatter::{width,fill,align,sign_plus,sign_minus,sign_aware_zero_pad,flags,alternate} flows into the bytes written or into '
-                       'pad_integral. NOT decided: that the ASCII-digit rounding agrees numerically with the library\'s rounding routines.')
+                       'pad_integral. UNITS (contradiction rule): on the formatting paths every byte container is used consistently as ASCII text or as digit values (a `== 0` / is_zero test on bytes that are elsewhere offset by b\'0\' is a contradiction). NOT decided: that the ASCII-digit rounding agrees numerically with the library\'s rounding routines.')
     F = ctx.facts('default', 'rel')
     if not hasattr(F, '_prov'):
         F._prov = prov.ProvEngine(F)
@@ -57,6 +57,8 @@ def run(ctx):
     names = F.reach(R.fmt_entries(F))
     rep.add_functions(names)
     nc, ng = flags_noninterference(rep, F, E, names)
+    nu = units.check(rep, F, names)
+    rep.floor('byte containers with a consistent unit', nu, 4)
     # sign handed to pad_integral derives from the number's sign
     n_pad = 0
     for nme in sorted(names):
